@@ -20,6 +20,7 @@ From TucModel Require Import Base.Bytes Base.ListX Model.Bounds Spec.Resolve Pro
   Model.BoundsParse Spec.BoundsGrammar Tie.RsStr Tie.Gen_side_from_str Tie.Bridge_side_from_str Tie.Gen_ub_from_str Tie.Bridge_ub_from_str
   Tie.RsList Tie.Gen_ubl_unpack Tie.Bridge_ubl_unpack Tie.Gen_ubl_complement Tie.Bridge_ubl_complement
   Model.CutBytes Spec.BytesMode Tie.Gen_cut_bytes Tie.Bridge_cut_bytes
+  Spec.Fields Proofs.ScanSplit Tie.RsScan Tie.Gen_fill_fields Tie.Bridge_fill_fields Tie.Gen_compress_delimiter Tie.Bridge_compress_delimiter
   Model.CutStr Tie.Gen_fast_output_parts Tie.Bridge_fast_output_parts Tie.Gen_fast_cut_record Tie.Bridge_fast_cut_record Proofs.C02
   Proofs.C13 Proofs.C06 Proofs.C03Full Proofs.C19 Proofs.C18Iff.
 Import ListNotations.
@@ -234,7 +235,30 @@ Proof.
   - constructor; [exact I | apply IH; exact Hl].
 Qed.
 
+(** C01 (the splitting core) and C10 (the reused buffers), on the code as translated: whatever the
+    reused vector holds on entry, the translated [fill_with_fields_locations] fills it with byte ranges
+    that cut a non-empty record into exactly the fields of the statement - the leftmost non-overlapping
+    occurrences of the delimiter as separators, self-overlapping delimiters included; and whatever the
+    reused output buffer holds, the translated [compress_delimiter] leaves in it the model's compressed
+    copy.  Neither can panic. *)
+Theorem tie_C01_fields_locations : forall (scratch : list (Z * Z)) (d line : bytes),
+  d <> [] -> line <> [] -> Z.of_nat (length line) + Z.of_nat (length d) <= usize_max ->
+  exists table : list mtch,
+    gen_fill_fields scratch line d = Ret (tt, map mz table)
+    /\ is_split d line (pieces line table).
+Proof.
+  intros scratch d line Hd Hl Hlen. exists (fields_of_matches (lit_matches d line) line).
+  split; [apply tie_fill_fields; exact Hlen | apply fields_locations_are_fields; assumption].
+Qed.
+
+Theorem tie_C10_compress_ignores_its_buffer : forall (line d b1 b2 : bytes),
+  Z.of_nat (length line) + Z.of_nat (length d) <= usize_max ->
+  gen_compress_delimiter line d b1 = gen_compress_delimiter line d b2.
+Proof. intros. rewrite !tie_compress_delimiter by assumption. reflexivity. Qed.
+
 Print Assumptions tie_try_into_range_spec.
+Print Assumptions tie_C01_fields_locations.
+Print Assumptions tie_C10_compress_ignores_its_buffer.
 Print Assumptions tie_C02_fast_record_is_the_general_path.
 Print Assumptions tie_C06_byte_mode_exact.
 Print Assumptions tie_C15_list_complement.
